@@ -1270,6 +1270,31 @@ def run_fixtures(ctx, per_file):
         lines.append("%s\topen\txls\t%s\t%s" % (c.cid, path, calls))
         meta[c.cid] = c
     impl = ctx.run_impl(lines)
+    # an oracle that does not go through calamine: a fixture whose _VBA_PROJECT_CUR/VBA storage holds n module
+    # streams (every stream but dir, _VBA_PROJECT, PROJECT*, __SRP_*) must open, and vba_project() must list n
+    # modules whose source begins with "Attribute VB_" (the re-laid-out files are compared with this output)
+    for p in vba:
+        ents = parsed[p]
+        stor = [n for n, t, _, _ in ents if t == 1]
+        par = {j + 1: q for j, (n, t, _, q) in enumerate([e for e in ents if e[1] == 1])}
+        cur = [j + 1 for j, n in enumerate(stor) if n == "_VBA_PROJECT_CUR" and par[j + 1] == 0]
+        vst = [j + 1 for j, n in enumerate(stor) if n == "VBA" and cur and par[j + 1] == cur[0]]
+        if not vst:
+            continue
+        mods = [n for n, t, _, q in ents if t == 2 and q == vst[0] and n not in ("dir", "_VBA_PROJECT")
+                and not n.startswith("__SRP_") and not n.startswith("PROJECT")]
+        out = impl.get("orig:" + os.path.basename(p)) or ""
+        ctx.traces += 1
+        ctx.count("fixture_vba_oracle:%d_modules" % len(mods))
+        listed = out.split("M[", 1)[1].split("]", 1)[0].split(",") if "M[" in out else []
+        texts = [x.split(":", 1)[1] if ":" in x else "" for x in listed if x]
+        good = len(texts) == len(mods) and all(t.startswith("Attribute VB_".encode().hex()) for t in texts)
+        if not good:
+            ctx.violations.append({"case": "orig:%s\topen\txls\t%s\t%s" % (os.path.basename(p), p, calls),
+                                   "expected": "vba_project() listing %d modules (streams %s of _VBA_PROJECT_CUR/VBA), each source "
+                                               "beginning with 'Attribute VB_'" % (len(mods), ", ".join(mods)),
+                                   "actual": out[:600], "model": "(an independent reading of the compound file)",
+                                   "what": "Xls::new + vba_project() on the fixture %s, which holds a VBA project in _VBA_PROJECT_CUR/VBA" % os.path.basename(p)})
     for cid, c in meta.items():
         want = impl.get("orig:" + os.path.basename(c.src))
         got = impl.get(cid)
